@@ -84,7 +84,7 @@ func (g *gen) ip4frame() []byte {
 		pl = lib.MkTCP(uint16(1024+g.rng.Intn(100)), 80, g.rng.Bytes(g.rng.Intn(12)))
 	case 2:
 		proto = 1
-		pl = lib.MkICMPEcho(8, 0, 7, 1, g.rng.Bytes(4))
+		pl = lib.MkICMPEcho([]byte{8, 0}[g.rng.Intn(2)], 0, 7, 1, g.rng.Bytes(4)) // request or reply (echoNotify)
 	}
 	return lib.MkEther(lib.RouterMAC, g.mac(), 0x0800, lib.MkIP4(g.ip4(), g.ip4(), proto, 64, pl))
 }
@@ -96,7 +96,7 @@ func (g *gen) ip6frame() []byte {
 		pl = lib.MkUDP(uint16(1024+g.rng.Intn(100)), uint16(2000+g.rng.Intn(100)), g.rng.Bytes(g.rng.Intn(12)))
 	} else {
 		next = 58
-		pl = lib.MkICMP6(src, dst, 128, 0, []byte{0, 7, 0, 1, 1, 2, 3, 4})
+		pl = lib.MkICMP6(src, dst, []byte{128, 129}[g.rng.Intn(2)], 0, []byte{0, 7, 0, 1, 1, 2, 3, 4})
 	}
 	return lib.MkEther(lib.RouterMAC, g.mac(), 0x86dd, lib.MkIP6(src, dst, next, 64, pl))
 }
@@ -197,14 +197,50 @@ func (h *hist) plain() {
 	h.add("p:" + lib.Hex(f))
 }
 
+// appCall: the application calls a session API with views of the frame it has just parsed
+func (h *hist) appCall() {
+	g := h.g
+	ci := g.rng.Intn(len(macs))
+	mac, ip := macs[ci], ip4s[ci]
+	if g.rng.Chance(10) {
+		mac = lib.RouterMAC
+	}
+	switch c := g.rng.Intn(100); {
+	case c < 35:
+		h.add("c:" + lib.Hex(lib.MkEther(bcastMAC, mac, 0x0806, lib.MkARP(1, mac, ip, net.HardwareAddr{0, 0, 0, 0, 0, 0}, lib.RouterIP4))))
+	case c < 55:
+		h.add("e:" + lib.Hex(lib.MkEther(bcastMAC, mac, 0x0806, lib.MkARP(1, mac, ip, net.HardwareAddr{0, 0, 0, 0, 0, 0}, lib.RouterIP4))))
+	default:
+		// a UDP datagram whose payload carries an address and a name the application hands to the session
+		a := ip4s[g.rng.Intn(len(ip4s))].As4()
+		if g.rng.Chance(10) {
+			a = [4]byte{}
+		}
+		name := g.name()
+		payload := append(a[:], name...)
+		src := ip
+		if g.rng.Chance(30) {
+			src = zero4
+		}
+		frame := udp4Frame(lib.HostMAC, mac, src, lib.HostIP4, 40000, 9999, payload)
+		k := "a"
+		if c >= 80 {
+			k = "f"
+		}
+		h.add(k + ":" + lib.Hex(frame) + ":" + loc(udp4Off, 4) + ":" + loc(udp4Off+4, len(name)))
+	}
+}
+
 func (h *hist) control() {
 	switch c := h.g.rng.Intn(100); {
-	case c < 35:
+	case c < 25:
 		h.add("q")
-	case c < 60:
+	case c < 45:
 		h.add(h.g.purgeTok())
-	case c < 85:
+	case c < 65:
 		h.add("o:" + h.g.anyKey())
+	case c < 85:
+		h.appCall()
 	default:
 		// hunt an address that at most one lease holds (findByIP walks a Go map)
 		if len(h.known4) > 0 {
@@ -274,6 +310,19 @@ func (h *hist) dhcp() {
 		} else if g.rng.Chance(50) {
 			sp.ciaddr = ip4s[g.rng.Intn(len(ip4s))]
 			sp.srcIP = sp.ciaddr
+		}
+	case k >= 94: // DECLINE / RELEASE / INFORM
+		sp.typ = []byte{4, 7, 8}[g.rng.Intn(3)]
+		sp.xid = newXID()
+		sp.server = []netip.Addr{lib.HostIP4, lib.RouterIP4}[g.rng.Intn(2)]
+		addr := c.ip
+		if !addr.IsValid() || g.rng.Chance(20) {
+			addr = ip4s[g.rng.Intn(len(ip4s))]
+		}
+		if sp.typ == 4 {
+			sp.reqip = addr
+		} else {
+			sp.ciaddr, sp.srcIP = addr, addr
 		}
 	default: // REQUEST rebooting
 		sp.typ = 3
@@ -753,7 +802,12 @@ func generate(r *lib.Run) {
 	}
 	for _, c := range classes {
 		for i := 0; i < c.n*scale; i++ {
-			r.Do("h", g.history(c.depth/2+g.rng.Intn(c.depth), c.w)...)
+			kind := "h"
+			if g.rng.Chance(25) {
+				kind = "hl" // notifications stay queued in Session.C while later packets arrive and the buffer is scribbled
+				r.Stat("class.lazydrain", 1)
+			}
+			r.Do(kind, g.history(c.depth/2+g.rng.Intn(c.depth), c.w)...)
 			r.Stat("class."+c.name, 1)
 		}
 	}
